@@ -33,6 +33,8 @@ pub struct RefCfg {
     pub text_list: Option<Vec<String>>,
     /// search from offset 0 only
     pub offset0_only: bool,
+    /// spell the groups `(?<a>..)`, `(?<b>..)` (names that collide with the literals of the space)
+    pub letter_names: bool,
 }
 
 pub fn weight(pattern: &str, text: &str) -> usize {
@@ -68,7 +70,7 @@ pub fn run(cx: &Ctx, space: &Space, cfg: &RefCfg) -> Tally {
             if facts.n_groups >= refsem::MAXG {
                 return;
             }
-            let pattern = ast::to_pattern(node);
+            let pattern = if cfg.letter_names { ast::to_pattern_letter_names(node) } else { ast::to_pattern(node) };
             let prog = match ir::from_ast(node) {
                 Ok(p) => p,
                 Err(ir::BuildError::LookBehindNotConst) => {
